@@ -78,6 +78,9 @@ class Ctx:
         cmd = ["go", "build", "-tags", "verif", "-o", out]
         if race:
             cmd.insert(2, "-race")
+        elif os.environ.get("VERIF_COVER"):
+            # tools/coverage.sh: which statements of the repository's Go packages do the drivers of a check reach?
+            cmd[2:2] = ["-cover", "-coverpkg=./...,github.com/foxglove/mcap/go/mcap,github.com/foxglove/mcap/go/ros,github.com/foxglove/mcap/go/ros/ros1msg"]
         cmd.append("./cmd/mcapverif")
         env = dict(GOENV)
         env["GOCACHE"] = os.environ.get("GOCACHE", os.path.expanduser("~/.cache/go-build"))
@@ -90,7 +93,10 @@ class Ctx:
 
     def harness(self, args, timeout=3600, binpath=None, env=None, check=True):
         cmd = [binpath or self.bin] + [str(a) for a in args]
-        r = subprocess.run(cmd, capture_output=True, text=True, timeout=timeout, env=env or GOENV, cwd=self.tmp)
+        env = dict(env or GOENV)
+        if os.environ.get("VERIF_COVER") and os.environ.get("GOCOVERDIR"):
+            env["GOCOVERDIR"] = os.environ["GOCOVERDIR"]
+        r = subprocess.run(cmd, capture_output=True, text=True, timeout=timeout, env=env, cwd=self.tmp)
         if check and r.returncode != 0:
             raise MachineryError("harness %s failed rc=%d:\n%s\n%s" % (args[0], r.returncode, r.stdout[-2000:], r.stderr[-4000:]))
         return r
